@@ -3,9 +3,11 @@ package rules
 import (
 	"fmt"
 	"go/token"
+	"sort"
 
 	"golang.org/x/tools/go/ssa"
 
+	"verif/tools/core"
 	"verif/tools/load"
 	"verif/tools/model"
 	"verif/tools/pa"
@@ -48,6 +50,19 @@ func c18Helpers(c *Ctx) {
 		}
 	}
 	R.Role("C18.R8", "natively modelled helpers", n, 4)
+	var mnames []string
+	for n := range cssMembers(c) {
+		mnames = append(mnames, n)
+	}
+	sort.Strings(mnames)
+	for _, name := range mnames {
+		m := cssMembers(c)[name]
+		if m.verified {
+			R.OK("C18.R8", "member:"+name, "css."+name, c.P.Pos(m.fn.Pos()), "membership helper: returns true only across an equality of its string argument with an element of its list argument")
+		} else {
+			R.Unknown("C18.R8", "member:"+name, "css."+name, c.P.Pos(m.fn.Pos()), "an unexported helper with a membership signature whose body is not recognised as a membership test; the handlers calling it cannot be interpreted")
+		}
+	}
 }
 
 // elemOf: v is the element xs[idx] of loop l (load of &Over[inc]).
@@ -241,12 +256,8 @@ func c18HelperSplitValues(c *Ctx, fn *ssa.Function) (bool, string) {
 				}
 			}
 		} else {
-			// initial value: an empty slice literal
-			sl, ok := e.(*ssa.Slice)
-			if !ok {
-				return false, "the result slice does not start as an empty literal"
-			}
-			if al, ok := sl.X.(*ssa.Alloc); !ok || al.Type().String() != "*[0]string" {
+			// initial value: an empty slice literal or make([]string, 0, …)
+			if !emptyStringSlice(e) {
 				return false, "the result slice does not start empty"
 			}
 		}
@@ -315,11 +326,7 @@ func c18HelperMultiSplit(c *Ctx, fn *ssa.Function) (bool, string) {
 				return false, "the appended parts are not strings.Split(current part, current separator)"
 			}
 		} else {
-			sl, ok := e.(*ssa.Slice)
-			if !ok {
-				return false, "the new slice does not start as an empty literal"
-			}
-			if al, ok := sl.X.(*ssa.Alloc); !ok || al.Type().String() != "*[0]string" {
+			if !emptyStringSlice(e) {
 				return false, "the new slice does not start empty"
 			}
 		}
@@ -530,4 +537,81 @@ func c18HelperRecursive(c *Ctx, fn *ssa.Function) (bool, string) {
 		}
 	}
 	return true, fmt.Sprintf("entries are only set true: the seed at len(value) and %d guarded site(s) under valid[end+1] ∧ handler(Join(value[start:end+1], \" \")); valid[0] is returned", len(stores))
+}
+
+// cssMember describes a membership helper of package css: fn(x, list) is true only if x equals an element of list.
+type cssMember struct {
+	fn       *ssa.Function
+	strIdx   int // index of the string parameter
+	verified bool
+}
+
+var cssMembersMemo = map[*load.Program]map[string]*cssMember{}
+
+// cssMembers finds the unexported css functions with a membership signature and decides, by the any-match summary
+// rule, whether each really is one (true only across an equality of the string with an element of the list).
+func cssMembers(c *Ctx) map[string]*cssMember {
+	memoMu.Lock()
+	if m, ok := cssMembersMemo[c.P]; ok {
+		memoMu.Unlock()
+		return m
+	}
+	memoMu.Unlock()
+	out := map[string]*cssMember{}
+	for _, fn := range moduleFuncs(c.P) {
+		if fn.Pkg == nil || fn.Pkg.Pkg.Path() != load.ModPath+"/css" || fn.Parent() != nil || fn.Object() == nil || fn.Object().Exported() {
+			continue
+		}
+		if !load.IsMemberSig(fn.Signature) {
+			continue
+		}
+		m := &cssMember{fn: fn}
+		if fn.Signature.Params().At(0).Type().String() != "string" {
+			m.strIdx = 1
+		}
+		listP := fn.Params[1-m.strIdx]
+		strP := fn.Params[m.strIdx]
+		sc := &Ctx{P: c.P, R: newScratchReport(), Tier: c.Tier, VerifDir: c.VerifDir}
+		anyMatchObligation(sc, "C18.R8", "member:"+fn.Name(), fn, 0, func(A2 *pa.Analysis, at *pa.Atom) bool {
+			if at.Kind != "eq" {
+				return false
+			}
+			x, y := at.Resolve(at.X), at.Resolve(at.Y)
+			isElem := func(v ssa.Value) bool {
+				u, ok := v.(*ssa.UnOp)
+				if !ok {
+					return false
+				}
+				ia, ok := u.X.(*ssa.IndexAddr)
+				return ok && ia.X == ssa.Value(listP)
+			}
+			return (x == ssa.Value(strP) && isElem(y)) || (y == ssa.Value(strP) && isElem(x))
+		}, "an equality test of the string with an element of the list")
+		m.verified = len(sc.R.Obls) > 0
+		for _, o := range sc.R.Obls {
+			if o.Status != core.Discharged {
+				m.verified = false
+			}
+		}
+		out[fn.Name()] = m
+	}
+	memoMu.Lock()
+	cssMembersMemo[c.P] = out
+	memoMu.Unlock()
+	return out
+}
+
+// emptyStringSlice: []string{} , make([]string, 0[, n]) or a nil slice constant.
+func emptyStringSlice(v ssa.Value) bool {
+	switch x := v.(type) {
+	case *ssa.Slice:
+		al, ok := x.X.(*ssa.Alloc)
+		return ok && al.Type().String() == "*[0]string"
+	case *ssa.MakeSlice:
+		k, ok := x.Len.(*ssa.Const)
+		return ok && k.Int64() == 0
+	case *ssa.Const:
+		return x.IsNil()
+	}
+	return false
 }
